@@ -455,8 +455,9 @@ def rule_limits(ctx, repo, it):
         r.violated('nulldummy', ms.site, 'no NULLDUMMY check in _CheckMultiSig')
     elif len(cands) == 1 and len(cands[0][1]) == 1 and cands[0][1][0] in good:
         r.ok('nulldummy', common.site_of(ms, cands[0][0]), 'dummy must be the empty vector: `%s`' % cands[0][1][0])
-    elif len(cands) == 1 and len(cands[0][1]) == 1 and re.match(r"^(stack\[-1\] (!=|==) b'.*'|len\(stack\[-1\]\) (!=|==|>|<|>=|<=) \d+|not stack\[-1\]|stack\[-[02-9]\].*|(not )?_CastToBool\(stack\[-1\]\))$", cands[0][1][0]):
-        r.violated('nulldummy', common.site_of(ms, cands[0][0]), 'NULLDUMMY requires the dummy element to be the empty byte vector; the test is `%s`' % cands[0][1][0])
+    elif len(cands) == 1 and len(cands[0][1]) == 1 and re.match(r"^(stack\[-1\] (!=|==) b'.*'|stack\[-1\] (!=|==|is|is not) (-?\d+|None|True|False|'.*')|len\(stack\[-1\]\) (!=|==|>|<|>=|<=) \d+|not stack\[-1\]|stack\[-[02-9]\].*|(not )?_CastToBool\(stack\[-1\]\))$", cands[0][1][0]):
+        r.violated('nulldummy', common.site_of(ms, cands[0][0]), 'NULLDUMMY requires the dummy element to be the empty byte vector; the test is `%s`%s' % (cands[0][1][0],
+                   ' (a stack element is a byte string: compared with a value of another type the answer never changes)' if re.search(r"(!=|==|is|is not) (-?\d+|None|True|False|'.*')$", cands[0][1][0]) else ''))
     elif not cands and all(not any(isinstance(x, (ast.Raise, ast.Call)) for b_ in m_.body for x in ast.walk(b_)) for m_ in mentions):
         r.violated('nulldummy', common.site_of(ms, mentions[0]), 'NULLDUMMY branch never fails')
     else:
